@@ -57,10 +57,32 @@ def knill_monitor(ctx):
             for fam, V in structured_isometries(ctx.rng, n, m):
                 log = []
                 with monitors.patched(scipy.linalg, "schur", monitors.schur_monitor(ctx, log)):
+                    circ = None
                     try:
-                        I.decompose(V if m > 0 else V[:, 0], scheme="knill")
+                        circ = I.decompose(V if m > 0 else V[:, 0], scheme="knill")
                     except Exception as ex:   # construction failures are the direct evaluation's business
                         ctx.note(f"knill raised on {fam} n={n} m={m}: {type(ex).__name__}")
+                if circ is not None:
+                    # structure of every factor: prepare^-1 ; x on all ; mcp(theta) on the last qubit, controlled by all others ;
+                    # x on all ; prepare  (C03_knill_factor with the phase step C03_knill_phase)
+                    ctx.monitor("knill_factor_structure")
+                    ops = [(i.operation.name, [circ.find_bit(q).index for q in i.qubits], i.operation) for i in circ.data]
+                    per = 2 * n + 3
+                    ok = len(ops) % per == 0
+                    for f in range(0, len(ops) if ok else 0, per):
+                        blk = ops[f:f + per]
+                        xs1, mcp, xs2 = blk[1:1 + n], blk[1 + n], blk[2 + n:2 + 2 * n]
+                        ok = ok and all(o[0] == "x" for o in xs1 + xs2) and sorted(o[1][0] for o in xs1) == list(range(n)) \
+                            and sorted(o[1][0] for o in xs2) == list(range(n)) and mcp[0] in ("mcphase", "cp", "p") \
+                            and mcp[1] == list(range(n)) and blk[0][1] == list(range(n)) and blk[-1][1] == list(range(n)) \
+                            and blk[0][0].replace("_dg", "") == blk[-1][0].replace("_dg", "")
+                        if ok:
+                            from qiskit.quantum_info import Operator
+                            prod = Operator(blk[0][2]).data @ Operator(blk[-1][2]).data
+                            ok = bool(np.abs(prod - np.eye(2 ** n)).max() < 1e-8)
+                    if not ok:
+                        ctx.mismatch("C03 contract: the Knill circuit is not a sequence of factors prepare^-1 ; x layer ; mcp ; x layer ; prepare",
+                                     {"n": n, "m": m, "family": fam})
                 ctx.count("monitor:knill_schur:" + fam, key=("knill", n, m, fam, V.tobytes()[:64]), nontrivial=True,
                           sample={"n": n, "m": m, "family": fam, "schur_calls": len(log)} if (n, m) == (3, 1) else None)
                 for (eu, ed, er) in log:
@@ -133,7 +155,13 @@ def replay(ctx, case):
 
 
 MANIFEST = dict(
-    text="Proof (MODULAR/PARTIAL): Knill's product formula prod_i(1+(lam_i-1)E_i) = sum_i lam_i E_i for orthogonal idempotents summing to 1 (C03_knill_product, any field); bit-level specifications of the translated index helpers _a/_b/_k_s of the column-by-column scheme. Tie: translator (regenerated every run, validated by execution); monitor on every Schur decomposition used by the Knill scheme (unitary basis, diagonal form: the theorem's premise that numpy eig violated before the repair). CCD sweep and CSD scheme are evaluated: leading columns of the operator vs the isometry, every scheme, every m, structured families.",
-    note='Modelled, not verified: scipy schur/null_space, Qiskit UCGate / multi-controlled gates; CCD and CSD schemes evaluated only.',
-    technique='Coq/mathcomp proof + translator-regenerated definitions + contract monitors + numpy operator comparison',
+    text=("Proof (MODULAR): Knill scheme - product formula prod_i(1+(lam_i-1)E_i) = sum_i lam_i E_i for orthogonal idempotents summing to 1 (C03_knill_product, any field), "
+          "each factor as a circuit prepare^-1 ; phase on |0..0> ; prepare = 1 + c|v><v| (C03_knill_factor) and the phase step x layer ; mcp ; x layer (C03_knill_phase); "
+          "column-by-column scheme - closing step: if the sweep reaches embedding x phases, the returned operator maps basis column k to column k of V (C03_ccd_closing); "
+          "bit-level specifications of the translated index helpers _a/_b/_k_s. Tie: translator (regenerated every run, validated by execution); monitors on every Schur "
+          "decomposition used by Knill (unitary basis, diagonal form: the premise numpy eig violated before the repair), on the factor structure of every Knill circuit, and on "
+          "every _ccd run (tracked matrix = embedding x phases; returned operator maps the embedding to V). Leading columns of the operator vs the isometry are evaluated for every "
+          "scheme, every m and structured families."),
+    note='Modelled, not verified: why the CCD column sweep reaches embedding x phases (per-column zeroing) and the CSD extension (evaluated); scipy schur/null_space, Qiskit UCGate / multi-controlled gates; the state preparations inside the Knill factors are C01.',
+    technique='Coq/mathcomp proof + Sem-level proof of the phase step + translator-regenerated definitions + contract monitors + numpy operator comparison',
     design_ref='DESIGN.md section 4, C03')
